@@ -48,6 +48,13 @@ def _desc(tok):
     return model.MultiLanguageTextType({"en": f"T{tok}"})
 
 
+LIST_SEMANTICS = model.ExternalReference((model.Key(model.KeyTypes.GLOBAL_REFERENCE, "urn:list:semantics"),))
+
+
+def list_typing(type_value, semantic_id_present):
+    return 1 if type_value == "Range" else (2 if semantic_id_present else 0)
+
+
 def mk_quals(quals):
     return [model.Qualifier(t, model.datatypes.String, str(v)) for (t, v) in quals]
 
@@ -64,8 +71,13 @@ def mk_elem(e):
     if mt == "SubmodelElementCollection":
         return model.SubmodelElementCollection(e["ids"], value=[mk_elem(c) for c in e.get("children", [])], **common)
     if mt == "SubmodelElementList":
-        return model.SubmodelElementList(e["ids"], model.Property, value=[mk_elem(c) for c in e.get("children", [])],
-                                         value_type_list_element=model.datatypes.String, **common)
+        # the typing of the list travels in the `ctype` field: 0 = Property/xs:string, 1 = Range/xs:int,
+        # 2 = Property/xs:string with a semanticIdListElement
+        lt = e.get("ctype", 0)
+        return model.SubmodelElementList(
+            e["ids"], model.Range if lt == 1 else model.Property, value=[mk_elem(c) for c in e.get("children", [])],
+            value_type_list_element=model.datatypes.Int if lt == 1 else model.datatypes.String,
+            semantic_id_list_element=LIST_SEMANTICS if lt == 2 else None, **common)
     if mt == "File":
         return model.File(e["ids"], content_type=ct, value=None if val is None else val[1], **common)
     if mt == "Blob":
@@ -158,6 +170,8 @@ def abs_elem_json(d):
          "children": [], "ctype": 0, "val": None}
     if mt in ("SubmodelElementCollection", "SubmodelElementList"):
         r["children"] = [abs_elem_json(c) for c in d.get("value", [])]
+    if mt == "SubmodelElementList":
+        r["ctype"] = list_typing(d.get("typeValueListElement"), "semanticIdListElement" in d)
     if mt == "File":
         r["ctype"] = _idx(CTYPES, d.get("contentType"))
         r["val"] = None if d.get("value") is None else ("path", d.get("value"))
@@ -238,6 +252,8 @@ def abs_elem_xml(el, mt=None):
     v = el.find(NS + "value")
     if v is not None and len(v):
         r["children"] = [abs_elem_xml(c) for c in v]
+    if el.find(NS + "typeValueListElement") is not None:
+        r["ctype"] = list_typing(_xt(el, "typeValueListElement"), el.find(NS + "semanticIdListElement") is not None)
     ct = _xt(el, "contentType")
     if ct is not None:
         r["ctype"] = _idx(CTYPES, ct)
@@ -323,6 +339,7 @@ def snap_elem(e, in_list=False):
         r["children"] = [snap_elem(c) for c in e.value]
     elif isinstance(e, model.SubmodelElementList):
         r["children"] = [snap_elem(c, True) for c in e.value]
+        r["ctype"] = list_typing(e.type_value_list_element.__name__, e.semantic_id_list_element is not None)
     elif isinstance(e, model.File):
         r["ctype"], r["val"] = _idx(CTYPES, e.content_type), (None if e.value is None else ("path", e.value))
     elif isinstance(e, model.Blob):
